@@ -79,6 +79,8 @@ def eval_case(job):
                 res['tree'] = tree[0]
         key = ('on' if caching else 'off') + (('/' + ambient) if ambient else '')
         rendered = []
+        pre_completed = any(o[0] == 'pre_completed' for o in outs)
+        outs = [o for o in outs if o[0] != 'pre_completed']
         for out in outs:
             if out[0] == 'rows':
                 rendered.append(('rows', [surface.render_row(r) for r in out[1]]))
@@ -86,7 +88,8 @@ def eval_case(job):
                 rendered.append(('ok', surface.render_row(out[1])))
             else:
                 rendered.append(out)
-        res['impl'][key] = {'outs': rendered, 'hits': probe.hits, 'nonuniform': probe.nonuniform}
+        res['impl'][key] = {'outs': rendered, 'hits': probe.hits, 'nonuniform': probe.nonuniform,
+                            'pre_completed': pre_completed}
     return res
 
 
@@ -97,12 +100,13 @@ def parse_driver_line(line):
     if line.startswith('ERR'):
         raise HarnessError('driver: ' + line)
     parts = line.split('\t')
-    if len(parts) not in (7, 12) or parts[3] != 'S' or parts[5] != 'B':
+    if len(parts) not in (7, 14) or parts[3] != 'S' or parts[5] != 'B':
         raise HarnessError('driver: ' + line)
     out = {'id': parts[0], 'lspec': [x for x in parts[4].split(';') if x], 'tree': parts[6]}
-    if len(parts) == 12:
+    if len(parts) == 14:
         rows_ = lambda s_: [x for x in s_.split(';') if x]  # noqa: E731
-        out['l2'] = {'on': [rows_(parts[8]), rows_(parts[9])], 'off': [rows_(parts[10]), rows_(parts[11])]}
+        out['l2'] = {'on': [rows_(parts[8]), rows_(parts[9]), rows_(parts[12])],
+                     'off': [rows_(parts[10]), rows_(parts[11]), rows_(parts[13])]}
     if parts[1] == 'R':
         out['model'] = ('rows', [x for x in parts[2].split(';') if x])
     elif parts[1] == 'T':
